@@ -28,6 +28,14 @@
 (*   StopKA     = TRUE   repaired: writing `complete` marks the connection *)
 (*                       closed (under mu when LockWrites); keepAlive      *)
 (*                       never begins a write on a closed connection       *)
+(*   CloseAtomic = TRUE  (with StopKA) `complete` is written and the        *)
+(*                       connection marked closed in ONE critical section  *)
+(*                       (the repair as committed: 625d410)                *)
+(*   CloseAtomic = FALSE `complete` goes through the ordinary locked write *)
+(*                       and the connection is marked closed LATER, by the *)
+(*                       deferred close() - two critical sections: a ping  *)
+(*                       parked on mu gets in between and lands after      *)
+(*                       `complete` (CompleteLast fails; nothing else does)*)
 (*                                                                         *)
 (* multipart/mixed (kind = "mm").  main: responses(ctx) -> a.Add under     *)
 (* a.mu; at the end a.Done: `done <- true`, flush.  Ticker goroutine:      *)
@@ -50,7 +58,7 @@ CONSTANTS
   KASet,       \* subset of BOOLEAN: keep-alive pings configured? (sse)
   MaxTicks,    \* bound on ticker ticks per stream (keeps the exhaustive model finite)
   Disc,        \* BOOLEAN: may the client disconnect (at any instant)?
-  LockWrites, StopKA,
+  LockWrites, StopKA, CloseAtomic,
   KeepSink     \* TRUE in exhaustive configurations: record the sink and count ticks
 
 VARIABLES
@@ -110,7 +118,7 @@ MWriteBegin ==
   /\ mu' = (IF LockWrites THEN "main" ELSE mu)
   /\ acc' = acc \cup {"main"}
   /\ dirty' = [dirty EXCEPT !["main"] = (acc # {}), !["ka"] = (@ \/ kpc = "w1")]
-  /\ kastop' = (IF mtok.k = "complete" THEN TRUE ELSE kastop)
+  /\ kastop' = (IF mtok.k = "complete" /\ CloseAtomic THEN TRUE ELSE kastop)
   /\ sink' = Emit(<<Seg("B", mtok)>>)
   /\ mpc' = "w1"
   /\ UNCHANGED <<kind, n, ka, cancelled, disc, got, mtok, kpc, tick, nticks, fin, uaf, mmvars>>
@@ -136,7 +144,8 @@ MFlushEnd ==
   /\ kind = "sse" /\ mpc = "f1"
   /\ acc' = acc \ {"main"}
   /\ mu' = "free"
-  /\ mpc' = (CASE mtok.k = "pre" -> "startka" [] mtok.k = "next" -> "reset" [] OTHER -> "returned")
+  /\ mpc' = (CASE mtok.k = "pre" -> "startka" [] mtok.k = "next" -> "reset"
+               [] OTHER -> (IF StopKA THEN "close" ELSE "returned"))
   /\ UNCHANGED <<kind, n, ka, sink, cancelled, disc, got, mtok, dirty, kpc, tick, nticks, kastop, fin, uaf, mmvars>>
 
 \* time.NewTicker + go c.keepAlive(w) when KeepAlivePingInterval > 0
@@ -168,6 +177,14 @@ MReset ==
   /\ tick' = (IF ka THEN FALSE ELSE tick)
   /\ mpc' = "recv"
   /\ UNCHANGED <<kind, n, ka, sink, cancelled, disc, got, mtok, mu, acc, dirty, kpc, nticks, kastop, fin, uaf, mmvars>>
+
+\* repaired designs: the deferred close(): mu.Lock; closed = true; ticker.Stop; mu.Unlock; then Do returns
+MClose ==
+  /\ kind = "sse" /\ mpc = "close"
+  /\ mu = "free"
+  /\ kastop' = TRUE
+  /\ mpc' = "returned"
+  /\ UNCHANGED <<kind, n, ka, sink, cancelled, disc, got, mtok, mu, acc, dirty, kpc, tick, nticks, fin, uaf, mmvars>>
 
 \* the keep-alive ticker fires (environment: any timing)
 Tick ==
@@ -313,7 +330,7 @@ MMTickerStop ==
 
 \* -------------------------------------------------------------------------
 SseNext ==
-  \/ MWriteBegin \/ MWriteEnd \/ MFlushBegin \/ MFlushEnd \/ MStartKA \/ MRecv \/ MRecvNil \/ MReset
+  \/ MWriteBegin \/ MWriteEnd \/ MFlushBegin \/ MFlushEnd \/ MStartKA \/ MRecv \/ MRecvNil \/ MReset \/ MClose
   \/ Tick \/ KPingBegin \/ KPingEnd \/ KFlushBegin \/ KFlushEnd \/ KStop
 MmNext ==
   \/ MMRecvAdd \/ MMRecvNil \/ MMDoneSig \/ MMDoneFlush \/ MMTick \/ MMFlushTick \/ MMTickerStop
@@ -324,7 +341,7 @@ Next == SseNext \/ MmNext \/ ServerCancel \/ FinBegin \/ FinEnd \/ Disconnect
 \* done).  Ticks and the client are not.
 Fairness ==
   /\ WF_vars(MWriteBegin) /\ WF_vars(MWriteEnd) /\ WF_vars(MFlushBegin) /\ WF_vars(MFlushEnd)
-  /\ WF_vars(MStartKA) /\ WF_vars(MRecv) /\ WF_vars(MRecvNil) /\ WF_vars(MReset)
+  /\ WF_vars(MStartKA) /\ WF_vars(MRecv) /\ WF_vars(MRecvNil) /\ WF_vars(MReset) /\ WF_vars(MClose)
   /\ WF_vars(KPingBegin) /\ WF_vars(KPingEnd) /\ WF_vars(KFlushBegin) /\ WF_vars(KFlushEnd) /\ WF_vars(KStop)
   /\ WF_vars(MMRecvAdd) /\ WF_vars(MMRecvNil) /\ WF_vars(MMDoneSig) /\ WF_vars(MMDoneFlush)
   /\ WF_vars(MMFlushTick) /\ WF_vars(MMTickerStop)
@@ -335,7 +352,7 @@ Spec == Init /\ [][Next]_vars /\ Fairness
 \* ------------------------------------------------------------ properties --
 TypeOK ==
   /\ kind \in {"sse", "mm"} /\ n \in 0..MaxN /\ ka \in BOOLEAN
-  /\ mpc \in {"w0", "w1", "f0", "f1", "startka", "recv", "reset", "dsig", "dflush", "returned"}
+  /\ mpc \in {"w0", "w1", "f0", "f1", "startka", "recv", "reset", "close", "dsig", "dflush", "returned"}
   /\ got \in 0..(n + 1)
   /\ mu \in {"free", "main", "ka"} /\ acc \subseteq {"main", "ka", "srv"}
   /\ kpc \in {"off", "idle", "w1", "f0", "f1", "stopped"}
